@@ -175,6 +175,9 @@ def p_status_setup(d):
 
 
 def p_status_run(ctx):
+    if ctx.get("long"):         # the run that will be killed leaves more behind than the next one writes
+        ctx["st"](status="rendering", progress=54, article="A rather long article title " * 12)
+        return
     ctx["st"](status="rendering", progress=55, article="Foo")
 
 
@@ -382,11 +385,15 @@ PRODUCERS = {
 }
 
 
-def run_child(name, scratch, fault_at=None, kill_at=None):
-    """run one producer in a forked child under the tracer. Returns (ops, exit, final state)."""
+def run_child(name, scratch, fault_at=None, kill_at=None, retry=False):
+    """run one producer in a forked child under the tracer. Returns (ops, exit, final state).
+    retry: the history 'crash, then run again': the killed run (in its long variant, if the producer has one) is followed
+    by an undisturbed run in the same directory; the state returned is the one after the second run."""
     setup, runp, valid = PRODUCERS[name]
     d = tempfile.mkdtemp(dir=scratch)
     ctx = setup(d)
+    if retry:
+        ctx["long"] = True
     r, w = os.pipe()
     pid = os.fork()
     if pid == 0:
@@ -428,6 +435,29 @@ def run_child(name, scratch, fault_at=None, kill_at=None):
     os.close(r)
     _, status = os.waitpid(pid, 0)
     info = json.loads(data) if data else {"ops": None, "code": os.WEXITSTATUS(status)}
+    if retry:
+        ctx["long"] = False
+        pid2 = os.fork()
+        if pid2 == 0:
+            code = 0
+            try:
+                runp(ctx)
+            except BaseException:  # noqa: BLE001
+                code = 5
+            finally:
+                os._exit(code)
+        t_end = time.time() + CHILD_TIMEOUT
+        while True:
+            done, st2 = os.waitpid(pid2, os.WNOHANG)
+            if done:
+                break
+            if time.time() > t_end:
+                os.kill(pid2, 9)
+                os.waitpid(pid2, 0)
+                shutil.rmtree(d, ignore_errors=True)
+                raise common.HarnessError(f"the second run of {name} after a kill at {kill_at} did not finish within {CHILD_TIMEOUT} s")
+            time.sleep(0.01)
+        info["retry_code"] = os.WEXITSTATUS(st2)
     final = ctx["final"]
     if not os.path.exists(final):
         state = "absent"
@@ -506,6 +536,15 @@ def run(chk: common.Check):
             if st.startswith("BROKEN"):
                 viol.append({"producer": name, "kill_at": k, "fault_at": None, "state": st,
                              "why": f"killed before operation {k} ({ops[k] if k < n else 'end'}): the published file is {st}"})
+            # the history "killed there, then run again": the second run must publish a complete new file
+            if tier == "thorough" or n <= 12 or k % 4 == 0 or k >= n - 3:
+                info_r, st_r, _ = run_child(name, scratch, kill_at=k, retry=True)
+                evaluations += 1
+                hist["kill-then-rerun"] += 1
+                if st_r != "new":
+                    viol.append({"producer": name, "kill_at": k, "fault_at": None, "state": st_r,
+                                 "why": f"killed before operation {k} ({ops[k] if k < n else 'end'}) and run again (exit {info_r.get('retry_code')}): "
+                                        f"the published file is {st_r}, not the complete new version"})
             # the model's prediction for this prefix
             p = predicted[k] if k < len(predicted) else predicted[-1]
             want = {"absent": "absent", "old": "complete:0"}.get(st, "complete" if st == "new" else st)
